@@ -66,7 +66,7 @@ func New(rg *mon.Rng, opt Opts) *G {
 
 func (g *G) feat(k string) { g.Feat[k]++ }
 
-var hostileBases = []string{"my db", "a.b", `q"t`, `b\s`, "nl\nx", "1st", "é日", "select", "Time", "x'y", "FROM", "a-b", "$p", "tab\tx", "/re/", "with space ", "ünï", "true", "Or"}
+var hostileBases = []string{"my db", "a.b", `q"t`, `b\s`, "nl\nx", "1st", "é日", "select", "Time", "x'y", "FROM", "a-b", "$p", "tab\tx", "/re/", "with space ", "ünï", "true", "Or", "distinct", "DISTINCT", "now", "time", "all", "key", "temp_\u212a", "\u0130d", strings.Repeat("n", 63), strings.Repeat("L", 64), strings.Repeat("w", 65), strings.Repeat("ab", 100)}
 
 // Name returns a fresh name for a slot; every name in one statement differs.
 func (g *G) Name(slot string) string {
@@ -353,7 +353,11 @@ func (g *G) Call(ctx ECtx, depth int) *influxql.Call {
 	}
 	c := &influxql.Call{Name: name}
 	nargs := g.Rg.Intn(4)
-	if name == "now" {
+	if g.Opt.Odd && g.Rg.P(0.04) {
+		nargs = 7 + g.Rg.Intn(8) // surplus arguments
+		g.feat("call.args.many")
+	}
+	if name == "now" && nargs < 7 {
 		nargs = 0
 	}
 	for i := 0; i < nargs; i++ {
